@@ -239,7 +239,13 @@ pub fn witness_drop(s: &Summary) {
 /// solver fires any subset of outstanding wakers. With `sym_drop` the combinator is dropped
 /// after a solver-chosen number of polls (0..=rounds).
 pub fn run_fut<C: FutCase>(rounds: usize, sym_drop: bool) -> Summary {
+    run_fut_opts::<C>(rounds, sym_drop, 3)
+}
+
+/// `opts`: which side effects a pending child may have (bit 0 self-wake, bit 1 wake a sibling)
+pub fn run_fut_opts<C: FutCase>(rounds: usize, sym_drop: bool, opts: u8) -> Summary {
     reset(C::N);
+    w().opts = opts;
     {
         let w = w();
         let tracks = matches!(C::FAM, Fam::Join | Fam::TryJoin);
@@ -729,6 +735,38 @@ crate::proof!(tryjoin_arr2_r3, 6, {
     let s = run_fut::<ArrTryJoin<2>>(3, false);
     witness(&s);
 });
+crate::proof!(join_arr3_r3, 6, {
+    let s = run_fut::<ArrJoin<3>>(3, false);
+    witness(&s);
+});
+crate::proof!(join_tup3_r3, 6, {
+    let s = run_fut::<Tup3Join>(3, false);
+    witness(&s);
+});
+crate::proof!(tryjoin_arr3_r3, 6, {
+    let s = run_fut::<ArrTryJoin<3>>(3, false);
+    witness(&s);
+});
+crate::proof!(tryjoin_tup3_r3, 6, {
+    let s = run_fut::<Tup3TryJoin>(3, false);
+    witness(&s);
+});
+crate::proof!(raceok_arr3_r3, 6, {
+    let s = run_fut::<ArrRaceOk<3>>(3, false);
+    witness(&s);
+});
+crate::proof!(raceok_tup3_r3, 6, {
+    let s = run_fut::<Tup3RaceOk>(3, false);
+    witness(&s);
+});
+crate::proof!(race_arr3_r3, 6, {
+    let s = run_fut::<ArrRace<3>>(3, false);
+    witness(&s);
+});
+crate::proof!(race_tup3_r3, 6, {
+    let s = run_fut::<Tup3Race>(3, false);
+    witness(&s);
+});
 crate::proof!(join_ext2_r4, 6, {
     let s = run_fut::<ExtJoin>(4, false);
     witness(&s);
@@ -741,6 +779,16 @@ crate::proof!(race_ext2_r4, 6, {
 #[cfg(feature = "alloc")]
 mod vec_proofs {
     use super::*;
+    // small variants for the std configuration (FixedBitSet + Vec<Waker> are heavy): children
+    // do not wake from inside a poll, wake-ups come from the fire phase only
+    crate::proof!(join_vec2_r2_quiet, 6, {
+        let s = run_fut_opts::<VecJoin<2>>(2, false, 0);
+        witness(&s);
+    });
+    crate::proof!(tryjoin_vec2_r2_quiet, 6, {
+        let s = run_fut_opts::<VecTryJoin<2>>(2, false, 0);
+        witness(&s);
+    });
     crate::proof!(join_vec2_r3, 6, {
         let s = run_fut::<VecJoin<2>>(3, false);
         witness(&s);
